@@ -370,6 +370,134 @@ def c15c(ctx, tu):
     return n
 
 
+def _targs(t):
+    """top-level template arguments of the outermost <...> in a type string"""
+    i = t.find("<")
+    if i < 0:
+        return []
+    depth, cur, out = 0, "", []
+    for ch in t[i:]:
+        if ch == "<":
+            depth += 1
+            if depth == 1:
+                continue
+        elif ch == ">":
+            depth -= 1
+            if depth == 0:
+                break
+        if ch == "," and depth == 1:
+            out.append(cur.strip())
+            cur = ""
+        else:
+            cur += ch
+    if cur.strip():
+        out.append(cur.strip())
+    return out
+
+
+def c15d(ctx, tu):
+    """A report about a call shows the ACTUAL arguments of that call, all of them, under their own numbers.
+    (1) what the dispatch path hands to the forbidden-call report as the printed values is derived from the call's
+    parameter tuple (a parameter of the reporting function), not from the expectation's stored values / matchers;
+    (2) the parameter printer visits every index of the tuple, unconditionally, and labels index I with I."""
+    n = 0
+    rf = tu.find(A["report_forbidden_call"])
+    for callee in rf:
+        sp = [i for i, p in enumerate(callee.rec["params"]) if "basic_string" in p["t"] or p["t"].startswith("std::string")]
+        for cf, b, e in tu.callers().get(callee.id, ()):
+            if not cf.is_lib:
+                continue
+            args = e.get("args") or []
+            if len(sp) != 1 or sp[0] >= len(args):
+                ctx.ob("C15.d.actual", cf.qe, None, pattern=short_loc(e.get("loc", "")), unit=tu.name, inst=cf.q,
+                       detail="cannot tell which argument of the forbidden-call report is the printed values")
+                continue
+            n += 1
+            leaves = []
+
+            def walk(t, depth=0):
+                t = lib.strip_casts(t)
+                if not isinstance(t, list) or not t:
+                    return
+                if t[0] in ("param", "member", "oparam", "gvar"):
+                    leaves.append(t)
+                    return
+                if t[0] == "var" and depth < 4:
+                    for _, d in cf.events():
+                        if d["e"] == "decl" and d.get("var") == t[1]:
+                            walk(d.get("init"), depth + 1)
+                    return
+                for x in t[1:]:
+                    if isinstance(x, list):
+                        for y in (x if x and isinstance(x[0], list) else [x]):
+                            walk(y, depth)
+            walk(args[sp[0]])
+            own = [t for t in leaves if t[0] == "param"]
+            other = [t for t in leaves if t[0] != "param"]
+            ok = bool(own) and not other
+            ctx.ob("C15.d.actual", cf.qe, ok, pattern=short_loc(e.get("loc", "")), unit=tu.name, inst=cf.q,
+                   detail="" if ok else "the values printed in a forbidden-call report must be the arguments of the call "
+                   "that was made (the reporting function's call-parameter tuple); they are built from %s"
+                   % (", ".join(sorted(set(lib.tree_name(t) or str(t[:3]) for t in other))) or "nothing of the call"))
+    # the parameter printer
+    packs = [fn for fn in tu.find("trompeloeil::stream_params") if fn.has_body]
+    for fn in packs:
+        ps = fn.rec["params"]
+        seq = [i for i, p in enumerate(ps) if "integer_sequence<" in p["t"]]
+        tup = [i for i, p in enumerate(ps) if "tuple<" in p["t"]]
+        if len(tup) != 1:
+            ctx.ob("C15.d.every", "trompeloeil::stream_params", None, pattern=fn.pat, unit=tu.name, inst=fn.q,
+                   detail="parameter printer without a tuple parameter: unrecognised form")
+            continue
+        arity = len(_targs(ps[tup[0]]["t"][ps[tup[0]]["t"].index("tuple<"):]))
+        n += 1
+        if seq:
+            idx = _targs(ps[seq[0]]["t"][ps[seq[0]]["t"].index("integer_sequence<"):])[1:]
+            mv = cfg.find_events(fn, lambda e: e["e"] == "call" and (qe(e) or "").startswith("trompeloeil::") and
+                                 any(isinstance(a, list) and a[:1] == ["call"] and str(a[2]).startswith("std::get<")
+                                     for a in (e.get("args") or [])))
+            why = None
+            if len(idx) != arity:
+                why = "it is instantiated with %d indices for %d arguments" % (len(idx), arity)
+            elif len(mv) != arity:
+                why = "%d of %d arguments are printed" % (len(mv), arity)
+            else:
+                seen = set()
+                for b, i, e in mv:
+                    if fn.exit in cfg.reach(fn, fn.entry, avoid_blocks={b}):
+                        why = "an argument is printed only on some paths"
+                    g = [a for a in e["args"] if isinstance(a, list) and a[:1] == ["call"] and str(a[2]).startswith("std::get<")][0]
+                    gi = __import__("re").match(r"std::get<(\d+)", g[2]).group(1)
+                    seen.add(gi)
+                    lab = [a for a in e["args"] if isinstance(a, list) and a[:1] == ["int"]]
+                    if lab and str(lab[0][1]) != gi:
+                        why = "argument %s is printed under the number of argument %s" % (gi, lab[0][1])
+                if why is None and len(seen) != arity:
+                    why = "only the arguments %s are printed" % sorted(seen)
+            ctx.ob("C15.d.every", "trompeloeil::stream_params<I...>", why is None, pattern=fn.pat, unit=tu.name, inst=fn.q,
+                   detail="" if why is None else "a report lists every actual argument of the call: " + why)
+        else:
+            # the entry overload hands the whole index range on
+            sub = [(b, e) for b, _i, e in cfg.find_events(fn, lambda e: e["e"] == "call" and qe(e) == "trompeloeil::stream_params")]
+            why = None
+            if len(sub) != 1 or fn.exit in cfg.reach(fn, fn.entry, avoid_blocks={sub[0][0]}):
+                ctx.ob("C15.d.every", "trompeloeil::stream_params", None, pattern=fn.pat, unit=tu.name, inst=fn.q,
+                       detail="parameter printer: unrecognised form (no index-pack overload is called)")
+                continue
+            c = tu.fns.get(sub[0][1].get("callee"))
+            cseq = [p for p in (c.rec["params"] if c is not None else []) if "integer_sequence<" in p["t"]]
+            if not cseq:
+                why = "the index pack handed on cannot be determined"
+                ok = None
+            else:
+                k = len(_targs(cseq[0]["t"][cseq[0]["t"].index("integer_sequence<"):])) - 1
+                ok = k == arity
+                why = "it hands on %d indices for %d arguments" % (k, arity)
+            ctx.ob("C15.d.every", "trompeloeil::stream_params", ok, pattern=fn.pat, unit=tu.name, inst=fn.q,
+                   detail="" if ok else "a report lists every actual argument of the call: " + why)
+    return n
+
+
 def c15e(ctx, tu):
     """per expectation, EVERY parameter that rejected the call is printed: the index-pack overload of
     print_mismatch examines each index unconditionally, and the per-parameter overload prints exactly when
@@ -442,19 +570,24 @@ def run(ctx):
         "parameter-to-argument data-flow of the location argument of every report site to its origins over "
         "all callers. C15.c: structure of the no-match report (all actual parameters, listing loops "
         "without early exit, saturated listing guarded by matches(), live listing only when no saturated "
-        "expectation matched, per expectation either rejecting parameters or the failing WITH).")
+        "expectation matched, per expectation either rejecting parameters or the failing WITH). C15.d: the values "
+        "printed by the forbidden-call report are derived from the call's own parameter tuple, and the parameter "
+        "printer visits every index of that tuple unconditionally under its own number.")
     ctx.assumptions = ["conforming reporter; class-hierarchy analysis over the analysed units"]
     ctx.not_decided = ["exact wording of the messages"]
     sites = set()
     units = []
+    n_d = 0
     for tu in ctx.units(lambda n: not n.startswith("print") and not n.startswith("match")):
         n = c15a(ctx, tu)
         c15b(ctx, tu)
         c15c(ctx, tu)
         c15e(ctx, tu)
+        n_d += c15d(ctx, tu)
         for f, e in send_sites(tu):
             sites.add((f.qe, short_loc(e.get("loc", ""))))
         units.append({"unit": tu.name, "functions": len(tu.fns), "severity_contexts": n})
     ctx.floor("C15 report sites", len(sites), 8)
+    ctx.floor("C15.d printed-argument obligations", n_d, 10)
     ctx.extra["units"] = units
     ctx.extra["report_sites"] = sorted("%s @ %s" % s for s in sites)
